@@ -137,12 +137,15 @@ def opBec2ToBin : List String → String
     | _, _, _, _, _ => "bad-op"
   | _ => "bad-op"
 
+/-- what `random_bytes(16)` returns while the harness reads a file (the constructor's `session_key or random_bytes(16)`) -/
+def freshKey : Bytes := List.replicate 16 0xA5
+
 /-- bec2.read <chk> <encs> <binhex> -/
 def opBec2Read : List String → String
   | [chk, es, b] =>
     match parseEncs es, parseHex b with
     | some encs, some bin =>
-      match readBinary P256.env encs (chk == "1") bin with
+      match readBinary P256.env encs (chk == "1") bin freshKey with
       | .ok f => "ok " ++ showFile f
       | .error e => "err " ++ e.name
     | _, _ => "bad-op"
@@ -153,7 +156,7 @@ def opBec2ReadText : List String → String
   | [chk, es, t] =>
     match parseEncs es, parseStr t with
     | some encs, some s =>
-      let r := Entry.readBec2 P256.env encs (chk == "1") s
+      let r := Entry.readBec2 P256.env encs (chk == "1") s freshKey
       match r with
       | .ok (cm, f) => "ok " ++ showComments cm ++ " " ++ showFile f
       | .error e => "err " ++ e.name
